@@ -70,6 +70,13 @@ def run(ctx):
         rnd.append(s)
     notifs = []
     mx_real = None
+    # many distinct keys in rotation (a bounded table must not make repeated notifications re-emit)
+    for nk in (16, 17, 18, 40):
+        keys = ["k%02d" % i for i in range(nk)]
+        ops = []
+        for rnd_i in range(4):
+            ops += [(k, "v") for k in keys]
+        notifs.append((120, ops))
     for _ in range(200 if ctx.quick else 3000):
         mx = rng.choice([1, 2, 3, 5, 120, 120, 120])
         ops = []
@@ -79,15 +86,17 @@ def run(ctx):
             ops += [(k, v)] * rng.choice([1, 2, mx - 1 if mx > 1 else 1, mx, mx + 1, 2 * mx + 1, 3])
         notifs.append((mx, ops))
 
-    # monitor-loop level scripts: E unreadable file, G garbage file, M version mismatch, H healthy
+    # monitor-loop level scripts: E unreadable file, G garbage file, M version mismatch, H healthy,
+    # B healthy with a large non-ASCII connection summary, I/F/X install attempt (succeeded / failed / tool missing)
     polls = []
+    polls += ["FHH", "XHHB", "IHBH", "F" + "E" * 19 + "HBH", "B" * 3, "E" * 20 + "B" + "E" + "BB", "M" * 20 + "FHH"]
     for n in (18, 19, 20, 21, 22):
         for a in "EGM":
             polls.append(a * n + "HEH")
     for _ in range(60 if ctx.quick else 600):
         s = ""
         for _ in range(rng.randint(1, 6)):
-            s += rng.choice(["H", "HH", "E", "M", "G", "EM" * rng.choice([9, 10, 11]), "M" * rng.choice([19, 20, 21]),
+            s += rng.choice(["H", "HH", "E", "M", "G", "B", "BH", "I", "F", "X", "FH", "EM" * rng.choice([9, 10, 11]), "M" * rng.choice([19, 20, 21]),
                              "".join(rng.choice("EGM") for _ in range(rng.choice([10, 19, 20, 25])))])
         polls.append(s)
     dseqs = [list(bits) for n in range(1, 7) for bits in itertools.product([False, True], repeat=n)] + \
@@ -121,7 +130,10 @@ def run(ctx):
     impl_N = [[c == "1" for c in l] for l in out[ns + len(longs):ns + len(longs) + nN]]
     off = ns + len(longs) + nN
     impl_D = [[int(c) for c in l] for l in out[off:off + len(dseqs)]]
-    impl_P = [[int(c) for c in l] if not l.startswith("!") else l for l in out[off + len(dseqs):]]
+    # two digits per step: in-memory status, status in the written status file (9 9 = the step panicked)
+    raw_P = out[off + len(dseqs):]
+    impl_P = [[int(c) for c in l[0::2]] if not l.startswith("!") else l for l in raw_P]
+    file_P = [[int(c) for c in l[1::2]] if not l.startswith("!") else l for l in raw_P]
 
     # ---------------- model (vm_compute inside coqc) ----------------
     def blist(s):
@@ -144,7 +156,8 @@ def run(ctx):
 
     exprs = ["map (fun l => map hstate_code (run ss_default l)) %s" % clist([blist(s) for s in dseqs])]
     model_D = vplib.coq_eval(ctx, "From GPA Require Import Health.", exprs, name="dflt")[0]
-    pcode = {"E": "PollReadErr", "G": "PollReadErr", "M": "PollMismatch", "H": "PollHealthy"}
+    pcode = {"E": "PollReadErr", "G": "PollReadErr", "M": "PollMismatch", "H": "PollHealthy", "B": "PollHealthy",
+             "I": "PollInstall", "F": "PollInstall", "X": "PollInstall"}
     exprs = []
     for i in range(0, len(polls), 40):
         exprs.append("map (fun l => map hstate_code (run_polls ss_new l)) %s" % clist(
@@ -159,12 +172,16 @@ def run(ctx):
         why = prop_check_obs(s, io)
         if why:
             failures.append({"case": {"start": "StatusState::default()", "obs": "".join("1" if b else "0" for b in s)}, "why": why, "impl": io})
-    for ps, mo, io in zip(polls, model_P, impl_P):
+    for ps, mo, io, fo in zip(polls, model_P, impl_P, file_P):
         if isinstance(io, str):
             raise RuntimeError("poll-level leg could not run: " + io)
-        if mo != io:
-            disagreements.append({"case": {"polls": ps}, "model": mo, "impl": io})
-        why = prop_check_obs([c == "H" for c in ps], io)
+        if mo != io or mo != fo:
+            disagreements.append({"case": {"polls": ps}, "model": mo, "impl_in_memory": io, "impl_status_file": fo})
+        if 9 in io:
+            failures.append({"case": {"polls": ps}, "why": "the monitor step panicked at poll %d (the monitor task would die and the report would be stuck)" % io.index(9), "impl": io})
+            continue
+        # the REPORT is the status file
+        why = prop_check_obs([c in "HB" for c in ps], fo) or prop_check_obs([c in "HB" for c in ps], io)
         if why:
             failures.append({"case": {"polls (E unreadable, G garbage, M version mismatch, H healthy; one poll = one observation)": ps}, "why": why, "impl": io})
     for s, mo, io in zip(allS, model_S, impl_S):
